@@ -6,9 +6,13 @@ _ALL = [('RSocketMC', 'RSocketMC_%s.cfg' % k, 900) for k in
         ('rr', 'rr_s', 'stream', 'stream_s', 'stream_lib', 'channel_nopub', 'channel_lib', 'channel')]
 _SMALL = [c for c in _ALL if c[1] != 'RSocketMC_channel.cfg']
 # two interactions side by side on one connection (shared sender and link): cross-stream independence at design level
+# the library's request-channel AS IMPLEMENTED where it deviates from the design (open findings F17a/b/c): NoClauseFails must be
+# REFUTED - the day it holds, the findings are obsolete and the deviation in RSocketMC.tla (AsImplemented) is stale
+_IMPL = [('RSocketMC', 'RSocketMC_channel_impl.cfg', 900)]
+_EXPECT_REFUTED = {'RSocketMC_channel_impl.cfg': 'NoClauseFails'}
 _TWO = [('RSocketMC2', 'RSocketMC2_%s.cfg' % k, 900) for k in ('rr_rr', 'rr_stream', 'stream_rr_s', 'stream_stream', 'streamlib_rr')]
 CONFIGS = {
-    'C01': _ALL + _TWO, 'C07': _ALL, 'C08': _ALL, 'C09': _ALL + _TWO, 'C10': _ALL + _TWO,
+    'C01': _ALL + _TWO, 'C07': _ALL, 'C08': _ALL + _IMPL, 'C09': _ALL + _TWO, 'C10': _ALL + _TWO + _IMPL,
     'C06': [c for c in _ALL if 'lib' in c[1] or c[1] == 'RSocketMC_stream.cfg'],
     'C05': _SMALL + _TWO, 'C11': _SMALL, 'C12': _SMALL,
 }
@@ -35,8 +39,13 @@ def run_for(v, prop):
     with ThreadPoolExecutor(max_workers=2 if thorough else 7) as ex:
         results = list(ex.map(one, cfgs))
     for (module, cfg, timeout), r in results:
-        if r.timed_out or not r.finished:
+        if r.timed_out or (not r.finished and not r.violated):
             raise common.Machinery('TLC did not finish on %s/%s: %s' % (module, cfg, r.out[-1500:]))
+        if cfg in _EXPECT_REFUTED:
+            if r.violated != _EXPECT_REFUTED[cfg]:
+                raise common.Machinery('control configuration %s should refute %s but TLC reported %r' % (cfg, _EXPECT_REFUTED[cfg], r.violated))
+            v.coverage.setdefault('mc_configs', {})[cfg] = {'expected_refutation': _EXPECT_REFUTED[cfg], 'states': r.distinct}
+            continue
         if r.violated:
             v.add_failure('%s.design_%s' % (prop, r.violated), {'cfg': cfg}, 'TLC: %s violated in the design model %s' % (r.violated, cfg))
         v.add('states', r.distinct)
